@@ -388,7 +388,7 @@ def p_levels(N):
     return sorted(ps)
 
 
-PARAMS = {"erm": [0.1, 1.0, 10.0], "eloss": [0.1, 1.0, 10.0], "iso": [0.25, 0.5, 1.0],
+PARAMS = {"erm": [1e-4, 5e-4, 2e-3, 0.1, 1.0, 10.0], "eloss": [0.1, 1.0, 10.0], "iso": [0.25, 0.5, 1.0],
           "qcvar": [1.0, 2.0, 10.0, 100.0], "oce": [-1.0, 0.0, 0.5]}
 
 V_MOD = {"via": "module", "shape": "2d"}
@@ -456,6 +456,10 @@ def blocks(ctx):
                 for dtype in ("float64", "float32"):
                     out.append({"measure": measure, "N": N, "A": heavy, "params": params, "scale": 1.0,
                                 "dtype": dtype, "variant": V_MOD if measure != "var" else FULL_VARIANTS[5]})
+            if measure == "erm" and N in (2, 3):
+                # heavy tail at a large scale (a small risk aversion is not a small exponent there)
+                out.append({"measure": measure, "N": N, "A": [-800, 0, 4], "params": params, "scale": 1e4,
+                            "dtype": "float64", "variant": V_MOD})
             if measure in ("qcvar", "erm", "es"):
                 # large common offset (cash component): centring / logsumexp stability
                 out.append({"measure": measure, "N": N, "A": alpha, "params": params, "scale": 1.0,
